@@ -149,9 +149,11 @@ var (
 	floatsOut = []float64{-0.5, -1.5, -2.5, 1e-7, 2e-7, 1e30, 2e29, 1e26, 3e25, math.Inf(1), -1e30, 0.1, 0.2, 0.30000000000000004}
 	textsD12  = []string{"a", "ab", "abc", "abd", "b", "zeta", "Alpha", "k9", "~"}
 	textsOut  = []string{"ab c", "ab!", "ab", "", " a", "a ", "ab\x01", "x y", "x"}
-	nodeIDs   = [][2]string{{"/u", "a"}, {"/u", "b"}, {"/u", "c"}, {"/t", "a"}, {"/t", "x y"}, {"/u", "ab"}}
-	predIDs   = []string{"p", "q", "knows", "p q"}
-	instants  = []string{
+	// hierarchical types in prefix relation ('/' sorts before '<' in the printed form) and ids in prefix relation
+	nodeIDs = [][2]string{{"/u", "a"}, {"/u", "b"}, {"/u", "c"}, {"/t", "a"}, {"/t", "x y"}, {"/u", "ab"},
+		{"/u", "al"}, {"/u/x", "al"}, {"/u/x/y", "a"}, {"/ux", "a"}, {"/u/x", "a"}, {"/u", "z"}, {"/u", "a b"}}
+	predIDs  = []string{"p", "q", "knows", "p q"}
+	instants = []string{
 		"2020-01-01T00:00:00Z", "2020-01-01T00:00:01Z", "2019-12-31T23:30:00Z", "2021-06-15T12:00:00Z",
 		"1999-12-31T23:59:59Z", "2020-01-01T00:00:00.5Z", "2020-01-01T00:00:00.25Z", "2020-01-01T00:00:00.000000001Z",
 		"2020-01-01T00:00:00+01:00", "2020-01-01T02:00:00+02:00", "2019-12-31T19:00:00-05:00", "2020-01-01T00:00:01.5+01:00",
@@ -169,10 +171,10 @@ var (
 	// the same digits as int64 and as text, texts that differ in outer white space or in leading zeros
 	// extremes of int64: differences overflow
 	intsExtreme = []int64{math.MinInt64, math.MinInt64 + 1, -4611686018427387904, -1, 0, 1, 4611686018427387904, math.MaxInt64 - 1, math.MaxInt64}
-	digitTexts = []string{"5", "05", "5 ", " 5", "10", "-3"}
-	digitInts  = []int64{5, 10, -3}
-	strsD12 = []string{"a", "b", "ab", "abc", "u", "t", "x", "k1", "k2"}
-	strsOut = []string{" a", "a ", "a", "\ta", "", "  "}
+	digitTexts  = []string{"5", "05", "5 ", " 5", "10", "-3"}
+	digitInts   = []int64{5, 10, -3}
+	strsD12     = []string{"a", "b", "ab", "abc", "u", "t", "x", "k1", "k2"}
+	strsOut     = []string{" a", "a ", "a", "\ta", "", "  "}
 )
 
 func pickI(r *rand.Rand, a []int64) int64     { return a[r.Intn(len(a))] }
@@ -182,7 +184,7 @@ func pickS(r *rand.Rand, a []string) string   { return a[r.Intn(len(a))] }
 // column kinds the generator knows; "D" variants stay inside the comparable domain D12
 var colKindsD12 = []string{"intD", "floatD", "textD", "timeD", "node", "pred", "strD", "bool"}
 var colKindsAll = []string{"intD", "floatD", "textD", "timeD", "node", "pred", "strD", "bool",
-	"int", "float", "text", "time", "str", "blob", "null", "tpred", "floatN", "digits", "floatN", "digitsT", "intX", "intX"}
+	"int", "float", "text", "time", "str", "blob", "null", "tpred", "floatN", "digits", "floatN", "digitsT", "intX", "intX", "collide"}
 
 func genCell(r *rand.Rand, kind string) *table.Cell {
 	switch kind {
@@ -200,6 +202,28 @@ func genCell(r *rand.Rand, kind string) *table.Cell {
 			return &table.Cell{L: mustLit(literal.Float64, pickF(r, floatsOut))}
 		}
 		return &table.Cell{L: mustLit(literal.Float64, pickF(r, floatsD12))}
+	case "collide":
+		switch r.Intn(10) {
+		case 0:
+			return &table.Cell{L: mustLit(literal.Int64, int64(0))}
+		case 1:
+			return &table.Cell{L: mustLit(literal.Float64, float64(0))}
+		case 2:
+			return &table.Cell{L: mustLit(literal.Bool, true)}
+		case 3:
+			return &table.Cell{L: mustLit(literal.Text, "true")}
+		case 4:
+			return &table.Cell{L: mustLit(literal.Text, "abc")}
+		case 5:
+			return &table.Cell{L: mustLit(literal.Blob, []byte("abc"))}
+		case 6:
+			return &table.Cell{N: mustNode("/u", "ab")}
+		case 7:
+			return &table.Cell{N: mustNode("/ua", "b")}
+		case 8:
+			return &table.Cell{L: mustLit(literal.Text, "0")}
+		}
+		return &table.Cell{L: mustLit(literal.Int64, int64(1))}
 	case "intX":
 		return &table.Cell{L: mustLit(literal.Int64, pickI(r, intsExtreme))}
 	case "floatN":
@@ -328,6 +352,37 @@ func newGraph(ctx context.Context, name string, ts []*triple.Triple) storage.Sto
 		panic(err)
 	}
 	return st
+}
+
+// splitGraphs distributes the triples over 2 or 3 graphs (every triple in at least one, some in several) and returns the
+// store and the FROM list
+func splitGraphs(ctx context.Context, r *rand.Rand, ts []*triple.Triple) (storage.Store, string, map[string][]string) {
+	names := []string{"?g", "?h", "?i"}[:2+r.Intn(2)]
+	st := memory.NewStore()
+	parts := make([][]*triple.Triple, len(names))
+	for _, t := range ts {
+		k := r.Intn(len(names))
+		parts[k] = append(parts[k], t)
+		if r.Intn(4) == 0 {
+			j := (k + 1) % len(names)
+			parts[j] = append(parts[j], t)
+		}
+	}
+	layout := map[string][]string{}
+	for i, n := range names {
+		g, err := st.NewGraph(ctx, n)
+		if err != nil {
+			panic(err)
+		}
+		if err := g.AddTriples(ctx, parts[i]); err != nil {
+			panic(err)
+		}
+		layout[n] = []string{}
+		for _, t := range parts[i] {
+			layout[n] = append(layout[n], t.String())
+		}
+	}
+	return st, strings.Join(names, ", "), layout
 }
 
 func sortedKeys(m map[string]bool) []string {
